@@ -1,6 +1,8 @@
 /- Main.lean — line-protocol driver `lc3model`: one op per input line, one result line per op. -/
 import Lc3V.Driver.Util
 import Lc3V.Driver.Offset
+import Lc3V.Driver.Word
+import Lc3V.Driver.Instr
 open Lc3V Lc3V.Driver
 
 structure DState where
@@ -10,6 +12,9 @@ def step (st : DState) (line : String) : DState × String :=
   match line.trimAscii.toString.splitOn " " with
   | "off" :: args  => (st, cmdOff false args)
   | "offt" :: args => (st, cmdOff true args)
+  | "wop" :: args => (st, cmdWop args)
+  | "dec" :: args => (st, cmdDec args)
+  | "enc" :: args => (st, cmdEnc args)
   | _ => (st, "bad-op")
 
 partial def loop (hin : IO.FS.Stream) (hout : IO.FS.Stream) (st : DState) : IO Unit := do
